@@ -292,6 +292,28 @@ def c14_d(ctx: Ctx):
         out.append(ctx.ok(R, cb, stale[0], "an existing backup file makes create_backup refuse to start", construct=cb.qual + "|stale-backup"))
     else:
         out.append(ctx.info(R, cb, cb.node, "no refusal on an existing backup file", construct=cb.qual + "|stale-backup"))
+    # the document merge is not wrapped in buffered mode: on a conflict the backup context restores the file first and the enclosing buffer then
+    # flushes the partially merged document over it
+    for q in ("signac.sync:sync_jobs", "signac.sync:sync_projects"):
+        g = ctx.fn(q)
+        pmg = ctx.parents(g)
+        for w in [n for n in body_nodes(g) if isinstance(n, (ast.With, ast.AsyncWith))]:
+            idx = [i for i, it in enumerate(w.items) if isinstance(it.context_expr, ast.Call) and isinstance(it.context_expr.func, ast.Attribute) and it.context_expr.func.attr == "create_doc_backup"]
+            if not idx:
+                continue
+            outer = [it.context_expr for it in w.items[:idx[0]]]
+            cur = pmg.get(id(w))
+            while cur is not None:
+                if isinstance(cur, (ast.With, ast.AsyncWith)):
+                    outer += [it.context_expr for it in cur.items]
+                cur = pmg.get(id(cur))
+            buf = [e for e in outer if "buffered" in canon(e)]
+            kb = q + "|backup-not-buffered"
+            if buf:
+                out.append(ctx.viol(R, g, w, f"the document merge runs inside {canon(buf[0])[:40]}: when a conflict is raised the backup context restores the document file and the enclosing "
+                                    "buffer then writes the partially merged document over it - the roll-back is undone", construct=kb))
+            else:
+                out.append(ctx.ok(R, g, w, "the backup context is the outermost context of the document merge (no buffered mode around it)", construct=kb))
     fi = ctx.fn("signac.sync:_FileModifyProxy.create_doc_backup")
     # the in-memory backup: whatever the roll-back handler feeds back into the document (update(X) / reset(X))
     bnames = {a.id for h in body_nodes(fi) if isinstance(h, ast.ExceptHandler) for st in h.body for c in walk_no_nested(st)
